@@ -63,6 +63,14 @@
 #endif
 #define false ((cJSON_bool)0)
 
+/* verification hook: scheduler yield point / reach probe; compiled out unless DAVEGAMBLE_CJSON_VERIF is defined */
+#ifdef DAVEGAMBLE_CJSON_VERIF
+extern void cjson_verif_yield(int site);
+#define CJSON_VERIF_YIELD(site) cjson_verif_yield(site);
+#else
+#define CJSON_VERIF_YIELD(site)
+#endif
+
 static unsigned char* cJSONUtils_strdup(const unsigned char* const string)
 {
     size_t length = 0;
@@ -434,6 +442,7 @@ static cJSON *detach_path(cJSON *object, const unsigned char *path, const cJSON_
     cJSON *parent = NULL;
     cJSON *detached_item = NULL;
 
+    CJSON_VERIF_YIELD(45)
     /* copy path and split it in parent and child */
     parent_pointer = cJSONUtils_strdup(path);
     if (parent_pointer == NULL) {
@@ -489,6 +498,7 @@ static cJSON *sort_list(cJSON *list, const cJSON_bool case_sensitive)
     cJSON *result = list;
     cJSON *result_tail = NULL;
 
+    CJSON_VERIF_YIELD(40)
     if ((list == NULL) || (list->next == NULL))
     {
         /* One entry is sorted already. */
@@ -653,6 +663,7 @@ static cJSON_bool compare_json(cJSON *a, cJSON *b, const cJSON_bool case_sensiti
             }
 
         case cJSON_Object:
+            CJSON_VERIF_YIELD(46)
             sort_object(a, case_sensitive);
             sort_object(b, case_sensitive);
             for ((void)(a = a->child), b = b->child; (a != NULL) && (b != NULL); (void)(a = a->next), b = b->next)
@@ -814,6 +825,7 @@ static int apply_patch(cJSON *object, const cJSON *patch, const cJSON_bool case_
     unsigned char *child_pointer = NULL;
     int status = 0;
 
+    CJSON_VERIF_YIELD(41)
     path = get_object_item(patch, "path", case_sensitive);
     if (!cJSON_IsString(path))
     {
@@ -1216,6 +1228,7 @@ static void create_patches(cJSON * const patches, const unsigned char * const pa
         {
             cJSON *from_child = NULL;
             cJSON *to_child = NULL;
+            CJSON_VERIF_YIELD(43)
             sort_object(from, case_sensitive);
             sort_object(to, case_sensitive);
 
@@ -1338,6 +1351,7 @@ static cJSON *merge_patch(cJSON *target, const cJSON * const patch, const cJSON_
     patch_child = patch->child;
     while (patch_child != NULL)
     {
+        CJSON_VERIF_YIELD(42)
         if (cJSON_IsNull(patch_child))
         {
             /* NULL is the indicator to remove a value, see RFC7396 */
@@ -1416,6 +1430,7 @@ static cJSON *generate_merge_patch(cJSON * const from, cJSON * const to, const c
     while (from_child || to_child)
     {
         int diff;
+        CJSON_VERIF_YIELD(44)
         if (from_child != NULL)
         {
             if (to_child != NULL)
